@@ -3,6 +3,8 @@ package main
 import (
 	"fmt"
 	"go/ast"
+	"go/token"
+	"go/types"
 	"strings"
 )
 
@@ -57,16 +59,19 @@ func ruleEscapeLoop(c *Ctx) {
 		}
 		return
 	}
-	// --- scan loop
+	// --- scan loop (form-independent: how the hit is remembered — a flag, an index, a jump — does not matter)
 	within = loops[0]
 	bad := ""
 	nHit, nMiss, nNone := 0, 0, 0
+	outsideEmit := func(n ast.Node) bool { return n == nil || n.Pos() < loops[1].Pos() || n.Pos() >= loops[1].End() }
+	verbatim := func(sp *SymPath) bool {
+		return sp.RetNode != nil && len(sp.Ret) == 1 && reCallNum.ReplaceAllString(sp.Ret[0].String(), "") == "append(P:dst,P:src)"
+	}
 	for _, sp := range p.LoopSegmentPaths(fd, loops[0], 5000) {
-		if !sp.Feasible() {
+		if !sp.Feasible() || false {
 			continue
 		}
 		hit, miss := esc(sp)
-		// effects that belong to the scan loop body: up to the exit from the loop (the first store to L:esc) for a hit
 		switch {
 		case sp.Continues:
 			nMiss++
@@ -74,55 +79,75 @@ func ruleEscapeLoop(c *Ctx) {
 				bad = "the scan goes on after a byte that needs escaping"
 			}
 			for _, ef := range sp.Effects {
-				if ef.Kind == "store" && (ef.Target == "P:dst" || ef.Target == "P:src" || ef.Target == "L:esc") {
+				if ef.Kind == "store" && (ef.Target == "P:dst" || ef.Target == "P:src") {
 					bad = "the scan loop changes " + ef.Target + " on a byte that needs no escaping"
 				}
 			}
 		case hit:
 			nHit++
-			appended, advanced, flagged := false, false, false
+			appended, advanced, other := false, false, false
 			for _, ef := range sp.Effects {
-				if isDst(ef) && len(ef.Args) == 2 && ef.Args[0].String() == "P:dst" && ef.Args[1].String() == "P:src[:L:i]" {
-					appended = true
+				if !outsideEmit(ef.Node) {
+					continue
 				}
-				if ef.Kind == "store" && ef.Target == "P:src" && ef.Val.String() == "P:src[L:i:]" {
-					advanced = true
+				if isDst(ef) {
+					if len(ef.Args) == 2 && ef.Args[0].String() == "P:dst" && ef.Args[1].String() == "P:src[:L:i]" {
+						appended = true
+					} else if !verbatim(sp) {
+						other = true
+					}
 				}
-				if ef.Kind == "store" && ef.Target == "L:esc" && ef.Val.String() == "true" {
-					flagged = true
+				if ef.Kind == "store" && ef.Target == "P:src" {
+					if ef.Val.String() == "P:src[L:i:]" {
+						advanced = true
+					} else {
+						other = true
+					}
 				}
 			}
 			if appended != advanced {
 				bad = "at the first escaped byte the prefix is appended without advancing the source to that byte (or the other way round)"
 			}
-			if !flagged {
-				bad = "finding a byte that needs escaping is not recorded (esc = true)"
+			if !appended && !hasCond(sp, "L:i", token.LEQ, "0") && !hasCond(sp, "L:i", token.EQL, "0") {
+				bad = "at the first escaped byte the bytes before it are not appended (and the byte is not the first one)"
+			}
+			if other {
+				bad = "between the scan and the emit loop something other than the prefix before the first escaped byte is appended, or the source is moved elsewhere"
 			}
 			// the function must then finish through the emit loop, not through the verbatim return
 			if sp.RetNode != nil && len(sp.RetNode.Results) == 1 {
 				if _, isCall := ast.Unparen(sp.RetNode.Results[0]).(*ast.CallExpr); isCall {
-					bad = "after a byte that needs escaping was found the rest of the source is appended verbatim"
+					bad = "after a byte that needs escaping was found the rest of the source is appended verbatim (the hit is not remembered)"
 				}
 			}
 		default:
-			// the scan ended; without a recorded hit (esc still false) the source goes out verbatim
-			escFalse := false
-			for _, cd := range sp.Conds {
-				if cd.Other == "!L:esc" {
-					escFalse = true
-				}
-			}
-			if !escFalse {
-				continue // a hit was recorded in an earlier iteration: the emit loop takes over
-			}
+			// the scan ended without a hit in this iteration: what happens then depends on what the loop remembered,
+			// which a single iteration does not know — decided on whole paths below
+		}
+	}
+	// whole paths without a hit (no iteration, or one miss and then the end): verbatim, or untouched into the emit loop
+	wsps, okW := p.SymPaths(fd, 20000, nil)
+	if !okW {
+		bad = "too many paths"
+	}
+	for _, sp := range wsps {
+		if !sp.Feasible() || sp.RetNode == nil {
+			continue
+		}
+		if hit, _ := esc(sp); hit {
+			continue
+		}
+		if verbatim(sp) {
 			nNone++
-			okV := false
-			if sp.RetNode != nil && len(sp.Ret) == 1 && sp.Ret[0].String() == "append(P:dst,P:src)#1" || sp.RetNode != nil && len(sp.Ret) == 1 && reCallNum.ReplaceAllString(sp.Ret[0].String(), "") == "append(P:dst,P:src)" {
-				okV = true
+			continue
+		}
+		for _, ef := range sp.Effects {
+			if outsideEmit(ef.Node) && (isDst(ef) || ef.Kind == "store" && ef.Target == "P:src") {
+				bad = "a source without bytes that need escaping is changed before the emit loop"
 			}
-			if !okV {
-				bad = "a source without bytes that need escaping is not returned as append(dst, src...)"
-			}
+		}
+		if outsideEmit(sp.RetNode) && nospace(p.Str(sp.RetNode.Results[0])) != "dst" {
+			bad = "a source without bytes that need escaping is not returned as append(dst, src...)"
 		}
 	}
 	if bad == "" && (nHit < 1 || nMiss < 1 || nNone < 1) {
@@ -163,39 +188,97 @@ func ruleEscapeLoop(c *Ctx) {
 		bad = fmt.Sprintf("expected plain and escape paths, got %d/%d", nPlain, nEsc)
 	}
 	c.Check(bad == "", "escapeBytes:emit", p.Pos(fd), "plain bytes verbatim, escaped bytes through one escape arm, each exactly once", "escapeBytes (emit loop): "+bad, `"a\"b\\c"`)
-	// --- returns: only the verbatim return between the loops (under !esc) and `dst` after the emit loop
+	// --- returns: the verbatim return only on paths without a hit; otherwise dst after the emit loop; none inside the
+	// emit loop, none before the scan
 	bad = ""
 	nRetE := 0
-	ast.Inspect(fd.Body, func(n ast.Node) bool {
-		if _, ok := n.(*ast.FuncLit); ok {
-			return false
+	idx0 := -1
+	for k, st := range fd.Body.List {
+		if st == loops[0] {
+			idx0 = k
 		}
-		rs, ok := n.(*ast.ReturnStmt)
-		if !ok {
+	}
+	for k, st := range fd.Body.List {
+		ast.Inspect(st, func(n ast.Node) bool {
+			if _, ok := n.(*ast.FuncLit); ok {
+				return false
+			}
+			rs, ok := n.(*ast.ReturnStmt)
+			if !ok {
+				return true
+			}
+			nRetE++
+			switch {
+			case k < idx0:
+				bad = "a return at " + p.Pos(rs) + " precedes the scan: the string is not looked at"
+			case st == loops[1]:
+				bad = "a return at " + p.Pos(rs) + " leaves from inside the emit loop: the rest of the string is dropped"
+			}
 			return true
+		})
+	}
+	sps, okP := p.SymPaths(fd, 20000, nil)
+	if !okP {
+		bad = "too many paths"
+	}
+	for _, sp := range sps {
+		if !sp.Feasible() || sp.RetNode == nil || false {
+			continue
 		}
-		nRetE++
+		within = loops[0]
+		hit, _ := esc(sp)
+		isVerb := len(sp.Ret) == 1 && reCallNum.ReplaceAllString(sp.Ret[0].String(), "") == "append(P:dst,P:src)"
+		isDstRet := len(sp.RetNode.Results) == 1 && nospace(p.Str(sp.RetNode.Results[0])) == "dst"
 		switch {
-		case rs.Pos() < loops[0].Pos():
-			bad = "a return at " + p.Pos(rs) + " precedes the scan: the string is not looked at"
-		case rs.Pos() < loops[0].End(), rs.Pos() > loops[1].Pos() && rs.Pos() < loops[1].End():
-			bad = "a return at " + p.Pos(rs) + " leaves from inside a loop: the rest of the string is dropped"
-		case rs.Pos() < loops[1].Pos():
-			under := false
-			for q := p.Parent(rs); q != nil && q != ast.Node(fd.Body); q = p.Parent(q) {
-				if ifs, ok := q.(*ast.IfStmt); ok && nospace(p.Str(ifs.Cond)) == "!esc" && containsNode(ifs.Body, rs) {
-					under = true
+		case hit && !isDstRet:
+			bad = "the return at " + p.Pos(sp.RetNode) + " is reached after a byte that needs escaping was found but does not hand back dst"
+		case !hit && !isVerb && !isDstRet:
+			bad = "the return at " + p.Pos(sp.RetNode) + " is neither `append(dst, src...)` (nothing to escape) nor dst"
+		}
+	}
+	c.Check(bad == "" && nRetE >= 1, "escapeBytes:returns", p.Pos(fd), "verbatim return only when nothing needs escaping; otherwise dst after the emit loop", "escapeBytes: "+bad, "a key or string value on that path")
+}
+
+// rangeKeyNegative: the path assumes a negative value for the index variable of a range loop of fd (impossible).
+func rangeKeyNegative(p *GoProg, fd *ast.FuncDecl, sp *SymPath) bool {
+	keys, others := map[string]bool{}, map[string]bool{}
+	ast.Inspect(fd, func(n ast.Node) bool {
+		switch x := n.(type) {
+		case *ast.RangeStmt:
+			if id, ok := x.Key.(*ast.Ident); ok && x.Tok == token.DEFINE && id.Name != "_" {
+				switch p.Info.TypeOf(x.X).Underlying().(type) {
+				case *types.Slice, *types.Array, *types.Basic, *types.Pointer:
+					keys[id.Name] = true
 				}
 			}
-			if !under || len(rs.Results) != 1 || nospace(p.Str(rs.Results[0])) != "append(dst,src...)" {
-				bad = "the return at " + p.Pos(rs) + " between the loops is not `append(dst, src...)` under `!esc`"
-			}
-		default:
-			if len(rs.Results) != 1 || nospace(p.Str(rs.Results[0])) != "dst" {
-				bad = "the final return at " + p.Pos(rs) + " does not hand back dst"
+		case *ast.Ident:
+			if _, isVar := p.Info.Defs[x].(*types.Var); isVar {
+				others[x.Name] = true // every definition, range keys included
 			}
 		}
 		return true
 	})
-	c.Check(bad == "" && nRetE >= 1, "escapeBytes:returns", p.Pos(fd), "verbatim return only when nothing needs escaping; otherwise dst after the emit loop", "escapeBytes: "+bad, "a key or string value on that path")
+	// a name that is defined more than once in fd is not trusted
+	defs := map[string]int{}
+	ast.Inspect(fd, func(n ast.Node) bool {
+		if id, ok := n.(*ast.Ident); ok {
+			if _, isVar := p.Info.Defs[id].(*types.Var); isVar {
+				defs[id.Name]++
+			}
+		}
+		return true
+	})
+	for _, cd := range sp.Conds {
+		if cd.Other != "" || !cd.R.IsConst() {
+			continue
+		}
+		l := cd.L.String()
+		if !strings.HasPrefix(l, "L:") || !keys[l[2:]] || defs[l[2:]] != 1 {
+			continue
+		}
+		if (cd.Op == token.LSS && cd.R.K <= 0) || (cd.Op == token.LEQ && cd.R.K < 0) || (cd.Op == token.EQL && cd.R.K < 0) {
+			return true
+		}
+	}
+	return false
 }
